@@ -254,47 +254,35 @@ def range_table(ctx, report, r5, mmod, mr, itype_var):
     """Decision table of match_range over every relative order / None-ness of (min, max, value), type and query."""
     src, inv = ctx.src, ctx.consts
     # ---- R5 ---------------------------------------------------------------------------------------------
-    # locate the three parsed values and the condition parameter
-    roles = {}
-    for st in walk_no_nested(mr):
-        if isinstance(st, ast.Assign) and isinstance(st.targets[0], ast.Name) and isinstance(st.value, ast.Call) \
-                and call_name(st.value).endswith('parse_value'):
-            txt = unparse(st.value)
-            for attr in ('min', 'max', 'value'):
-                if f"'{attr}'" in txt:
-                    roles[attr] = st.targets[0].id
-    if set(roles) != {'min', 'max', 'value'}:
-        raise AnalysisError('match_range: the three parse_value() results (min, max, value) were not found')
-    cond_param = mr.args.args[-1].arg
-    # the three values may only be compared / tested for None
-    for n in ast.walk(mr):
-        if isinstance(n, ast.Name) and n.id in roles.values() and isinstance(n.ctx, ast.Load):
-            par = mmod.parents.get(n)
-            if not isinstance(par, ast.Compare):
-                raise AnalysisError(f'match_range: `{n.id}` is used outside a comparison (`{unparse(par)[:50]}`): the '
-                                    'ordering abstraction does not apply')
-    body = [st for st in mr.body if not (isinstance(st, ast.Assign) and isinstance(st.value, ast.Call) and (
-        call_name(st.value).endswith('parse_value') or "'type'" in unparse(st.value)))]
+    from ..interp import Obj, Raised, call_function
     sel_in = inv.folder.lookup('css_types', 'SEL_IN_RANGE')
     sel_out = inv.folder.lookup('css_types', 'SEL_OUT_OF_RANGE')
 
-    def consts(name):
-        if name.startswith('ct.'):
-            return inv.folder.lookup('css_types', name[3:])
-        return inv.folder.lookup('css_match', name)
+    def evaluate(itype, mn, mx, val, flag):
+        """Interpret match_range with the attribute accessors and the value parser replaced by the abstract case."""
+        vals = {'@min': mn, '@max': mx, '@value': val}
+
+        def gabn(el, name, default=None):
+            return itype if name == 'type' else f'@{name}'
+
+        def parse_value(it, v):
+            r = vals.get(v)
+            return None if r is None else (r,)
+        stubs = {'css_match._DocumentNav.get_attribute_by_name': gabn, 'css_match.Inputs.parse_value': parse_value}
+        me = Obj(_cls='css_match.CSSMatch', _name='matcher')
+        try:
+            return bool(call_function(ctx, 'css_match.CSSMatch.match_range', [Obj(_name='el'), flag], {}, stubs, me))
+        except Raised as e:
+            return f'raises {e.exc_name}'
+        except miniev.Unsupported as e:
+            raise AnalysisError(f'match_range: outside the evaluable fragment: {e}')
     n_cases = 0
     first_bad = None
     ranks = [None, 0, 1, 2]
     for itype in sorted(RANGE_TYPES):
         for mn, mx, val in itertools.product(ranks, ranks, ranks):
             for flag, want_in in ((sel_in, True), (sel_out, False)):
-                env = {roles['min']: None if mn is None else (mn,), roles['max']: None if mx is None else (mx,),
-                       roles['value']: None if val is None else (val,), itype_var: itype, cond_param: flag,
-                       'self': miniev.Sym('self')}
-                try:
-                    got = bool(miniev.MiniEval(env, consts=consts).run(body))
-                except miniev.Unsupported as e:
-                    raise AnalysisError(f'match_range: outside the evaluable fragment: {e}')
+                got = evaluate(itype, mn, mx, val, flag)
                 # reference
                 if mn is None and mx is None:
                     exp = False
